@@ -5,7 +5,7 @@ From Coq Require Import List NArith ZArith Bool.
 From Qryn Require Import model.IngestRobust model.IngestPipe proofs.IngestPipeProofs.   (* C05's count-level parser pipeline; first: C02's names win *)
 From Qryn Require Import model.Ingest model.PushHandler model.IngestSpec model.IngestFresh proofs.IngestBase proofs.IngestAck
   proofs.IngestSpecProofs proofs.IngestPromises model.IngestSched model.PushConfirm proofs.IngestShapes
-  model.IngestBridge proofs.IngestBridgeProofs proofs.IngestBridgeRows proofs.IngestFreshFrom.
+  model.IngestBridge proofs.IngestBridgeProofs proofs.IngestBridgeRows proofs.IngestFreshFrom proofs.IngestLoops.
 From Qryn Require model.Spans model.IngestWidths proofs.IngestWidthsProofs.
 Import ListNotations.
 
@@ -297,3 +297,40 @@ Theorem regenerated_on_span_appends_only_fixed_widths : forall h sf af b s b' se
   hp_width_check h = true -> on_span_cells h sf af b s = CStOk b' sent -> se_tid s = 16%N /\ se_sid s = 8%N.
 Proof. exact IngestWidthsProofs.regenerated_on_span_appends_only_fixed_widths. Qed.
 Print Assumptions regenerated_on_span_appends_only_fixed_widths.
+
+(* The loops of the ProcessRequest closures (round 5, after the seeded change C02-e).  model/Ingest.v `eff` gives every column
+   one value per element of a request field; the closures do that with one loop per column (the time-series closure appends date
+   and labels in ONE loop over MDate).  translate/gen_c02_columns regenerates, per closure, every range loop whose body appends:
+   the field it ranges over, the columns it appends to, and how many statements of its body can make an iteration append to
+   fewer columns than another one (continue / break / return / if / switch / nested loop / panic); plus the appends guarded by
+   anything else and the exits between the first and the last append.  For EVERY table passing loops_ok (the regenerated one must,
+   on every run) and EVERY request -- any field lengths --: no such statement exists and column c receives exactly as many values
+   as the field `count_fields` names for it has elements (= what eff appends). *)
+Theorem checked_loops_append_like_eff :
+  forall gen lp s loops guarded k cs (len : String.string -> nat),
+    loops_ok gen lp = true ->
+    In (s, loops, guarded) lp ->
+    service_kind s = Some k ->
+    find (fun sc : String.string * list (String.string * String.string) => String.eqb (fst sc) s) gen = Some (s, cs) ->
+    guarded = 0%Z
+    /\ (forall l : loop_t, In l loops -> snd l = 0%Z)
+    /\ appended_counts cs loops len = map len (count_fields k).
+Proof. exact IngestLoops.checked_loops_append_like_eff. Qed.
+Print Assumptions checked_loops_append_like_eff.
+
+(* ... hence a request that is a table (all the fields n elements long) makes every column of the open batch grow by n. *)
+Theorem checked_loops_keep_the_batch_rectangular :
+  forall gen lp s loops guarded k cs (len : String.string -> nat) n,
+    loops_ok gen lp = true -> In (s, loops, guarded) lp -> service_kind s = Some k ->
+    find (fun sc : String.string * list (String.string * String.string) => String.eqb (fst sc) s) gen = Some (s, cs) ->
+    (forall f, In f (count_fields k) -> len f = n) ->
+    forall c, In c (appended_counts cs loops len) -> c = n.
+Proof. exact IngestLoops.checked_loops_keep_the_batch_rectangular. Qed.
+Print Assumptions checked_loops_keep_the_batch_rectangular.
+
+(* The loop table of seeded C02-e (an `if` + `continue` in the loop appending date and labels) is rejected; the unchanged one passes. *)
+Theorem skipping_loop_is_rejected :
+  loops_ok (fst (IngestLoops.six_tables series_loops_c02e)) (snd (IngestLoops.six_tables series_loops_c02e)) = false
+  /\ loops_ok (fst (IngestLoops.six_tables series_loops_model)) (snd (IngestLoops.six_tables series_loops_model)) = true.
+Proof. exact (conj IngestLoops.c02e_loops_are_rejected IngestLoops.unchanged_series_loops_pass). Qed.
+Print Assumptions skipping_loop_is_rejected.
